@@ -319,3 +319,13 @@ Theorem C01_code_order_copy :
   calls_doCopyNode = [b "src.Fetch"; b "rc.Close"; b "dst.Push"].
 Proof. exact (conj order_Copy (conj order_copyNode order_doCopyNode)). Qed.
 Print Assumptions C01_code_order_copy.
+
+(* Copy's prologue in the model (CopyTop.prologue_fetches / cache_after_resolve, compared with the
+   wrappers' prologue observations on every Copy case): it reads only the resolved root, the mapped
+   root and -- for a target platform on an image manifest -- that manifest's config blob *)
+Theorem C01_prologue_reads :
+  forall reffetch root0 mapped pt cache x,
+    In x (prologue_fetches reffetch root0 mapped pt cache) ->
+    x = root0 \/ x = mapped \/ (exists ok, pt = PTImage x ok).
+Proof. exact prologue_fetches_nodes. Qed.
+Print Assumptions C01_prologue_reads.
